@@ -46,3 +46,41 @@ def r1(ctx):
     ctx.require(ep is not None and ep.ret == SEQ, "positive control lost: extract_platforms (list(set(...))) must be classified as arbitrarily ordered")
     ctx.require(injective_key(None) and not injective_key(ast.parse("len").body[0].value), "positive control lost: key=len must be non-injective")
     ctx.floor(10)
+
+
+@rule("C14.R7", "modes are applied in set order: no two modes of one compiler may give one macro different definitions or both add search directories / forced includes")
+def r7(ctx):
+    """parse_args() turns the active modes into a set and applies them in iteration (hash) order; each mode's defines /
+    include_paths / include_files are appended in that order and Platform.define keeps the FIRST definition of a name,
+    include search takes the FIRST directory that has the file.  The outcome is independent of the hash seed exactly
+    when the compiler definitions never let two modes of one compiler disagree: this rule decides that on the data
+    files (and is moot - reported as such - when the code applies the modes in a sorted order)."""
+    import re as _re
+
+    from .c12 import _compiler_defs
+
+    repo = ctx.repo
+    pa = repo.cls("config", "ArgumentParser").find_method("parse_args")
+    set_order = any(isinstance(n, ast.Assign) and isinstance(n.value, ast.Call) and u(n.value.func) in ("set", "frozenset") and "modes" in u(n.targets[0]) for n in pa.body_nodes())
+    sorted_loop = any(isinstance(n, ast.For) and isinstance(n.iter, ast.Call) and u(n.iter.func) == "sorted" and "modes" in u(n.iter) for n in pa.body_nodes())
+    if not set_order or sorted_loop:
+        ctx.ok("config:ArgumentParser.parse_args:modes-order", "modes are not applied in set order")
+        ctx.floor(1)
+        return
+    n = 0
+    for fname, t in _compiler_defs(repo).items():
+        for cname, c in t.get("compiler", {}).items():
+            modes = c.get("modes", [])
+            for i, a in enumerate(modes):
+                for b in modes[i + 1 :]:
+                    n += 1
+                    da = {_re.split(r"[=(]", d, maxsplit=1)[0]: d for d in a.get("defines", [])}
+                    db = {_re.split(r"[=(]", d, maxsplit=1)[0]: d for d in b.get("defines", [])}
+                    clash = sorted(k for k in da if k in db and da[k] != db[k])
+                    key = f"compilers/{fname}.toml:{cname}:modes:{a.get('name')}+{b.get('name')}"
+                    ctx.check(not clash, key + ":defines", f"modes `{a.get('name')}` and `{b.get('name')}` of {cname} define {clash} differently ({[da[k] for k in clash]} vs {[db[k] for k in clash]}); the active modes are applied in set (hash) order and the first definition wins, so with both flags on one command line the macro's value depends on PYTHONHASHSEED", f"codebasin/compilers/{fname}.toml")
+                    for fld in ("include_paths", "include_files"):
+                        both = a.get(fld) and b.get(fld) and a.get(fld) != b.get(fld)
+                        ctx.check(not both, key + ":" + fld, f"modes `{a.get('name')}` and `{b.get('name')}` of {cname} both add {fld}; their relative order follows set iteration (hash order)", f"codebasin/compilers/{fname}.toml")
+    ctx.stats["mode_pairs"] = n
+    ctx.floor(1)
